@@ -680,7 +680,11 @@ impl TypeChecker {
         };
 
         if diverges {
-            todo!("make a pretty error")
+            return Err(self.error_simple(
+                "cannot match on an expression that never returns",
+                "this expression never evaluates to a value",
+                expr.id,
+            ));
         }
 
         let Type::Name(type_name) = &t_expr else {
@@ -1308,8 +1312,15 @@ impl TypeChecker {
                 }))
             }
             DeclarationKind::Enum(Some((ty, variant))) => {
-                if let Some(_field) = idents.next() {
-                    todo!("make a nice error for variant cannot have field")
+                if let Some(field) = idents.next() {
+                    return Err(self.error_simple(
+                        format!(
+                            "enum variant {} does not have a field `{}`",
+                            variant.name, field.node
+                        ),
+                        "enum variants do not have fields or methods",
+                        field.id,
+                    ));
                 }
                 Ok(ResolvedPath::EnumConstructor {
                     ty: ty.clone(),
